@@ -149,6 +149,10 @@ type Enc struct {
 	genCount  map[*ssa.BasicBlock]map[string]int
 	genNotes  map[*ssa.BasicBlock]map[string][]ssa.Value // object written by a general write, when it is a known SSA value
 	freshMode bool
+	inlined     bool   // this encoder runs the body of a helper inside its caller
+	inlineDepth int
+	inlineGuard string // reachability of the call site (entry block of an inlined body)
+	inlinedFns  map[string]bool
 }
 
 type iterRec struct {
@@ -206,6 +210,7 @@ func (e *Enc) reset() {
 	e.globalLoads = map[string]string{}
 	e.guardedVals = map[ssa.Value][2]string{}
 	e.inferredUsed = map[string]bool{}
+	e.inlinedFns = map[string]bool{}
 	e.wfSeen = nil
 }
 
